@@ -15,6 +15,7 @@
   period is written under the TZID of its start: `period_roundtrip_full`, refuted by `mixed_period_witness`.
 -/
 import ICal.Lemmas.Zoned
+import ICal.Lemmas.Civil
 namespace ICal.C11
 open ICal ICal.Zoned ICal.Codec
 
@@ -404,8 +405,9 @@ theorem period_roundtrip_utc {Z : Type} (P : Provider Z) (z : Z) (hz : P.key z =
     `datetime`, i.e. `localizeUtc` answers); the line is the `Z` form of wall' without TZID, and reads back
     as (wall', UTC) — the same instant.
     (`localizeUtc` re-checks the day-count formula on its own answer, so this needs no trust in the formula.
-    That it answers for every instant of the years 1..9999 is NOT proved: the correspondence run compares the
-    day count with CPython for every day 1899-2101 and a stride over 0001-9999.) -/
+    That it answers for every instant of the years 1..9999, and for no other, is `instant_conversion_total` /
+    `instant_conversion_exact` below; the correspondence run in addition compares the day count with CPython
+    for every day 1899-2101 and a stride over 0001-9999.) -/
 theorem utc_props_instant {Z : Type} (P : Provider Z) (ids : Str → Prop) (hl : ProviderLaws P ids)
     (name : Str) (hn : forcedUtcName name = true) (z : Z) (w : Wall) (v : ZDT Z)
     (hv : localizeUtc P ⟨w, some z⟩ = some v) :
@@ -443,6 +445,67 @@ theorem other_names_unchanged {Z : Type} (P : Provider Z) (name : Str) (hn : for
     (v : ZDT Z) : addValue P name v = some v := by
   simp [addValue, hn]
 
+/-! ## the conversion to UTC always answers inside `datetime.min .. datetime.max` -/
+
+/-- `datetime.min` and `datetime.max` (to the second) -/
+def wallMin : Wall := ⟨⟨1, 1, 1⟩, 0, 0, 0⟩
+def wallMax : Wall := ⟨⟨9999, 12, 31⟩, 23, 59, 59⟩
+
+/-- TOTALITY of the UTC conversion.  `Component.add` with a forced-UTC name (DTSTAMP, CREATED, LAST-MODIFIED,
+    ACKNOWLEDGED) and the `create_utc_property` setters, on an aware value `(w, z)` whose instant
+    `wall − offset` lies from 0001-01-01T00:00:00 to 9999-12-31T23:59:59 (the `datetime` range of CPython):
+    `localizeUtc` ANSWERS — there is a stored value `v`; it is a valid `datetime` in the provider's UTC zone at
+    the same instant, and the line is its `Z` form without TZID, which reads back as `v`.
+    No assumption on the wall time itself is needed (a valid one is the case of interest: `hw` would be unused),
+    none on the offset beyond the range of the shifted instant.  Rests on `Zoned.ofSec_total`
+    (Lemmas/Civil.lean): the closed day-count formulas `ofDays` / `toDays` are inverse on every day number and
+    `ofDays` yields a valid date on every day of the years 1..9999 — proved, no longer tied by correspondence. -/
+theorem instant_conversion_total {Z : Type} (P : Provider Z) (ids : Str → Prop) (hl : ProviderLaws P ids)
+    (name : Str) (hn : forcedUtcName name = true) (z : Z) (w : Wall)
+    (h1 : toSec wallMin ≤ toSec w - P.off z w) (h2 : toSec w - P.off z w ≤ toSec wallMax) :
+    ∃ v : ZDT Z, localizeUtc P ⟨w, some z⟩ = some v ∧ addValue P name ⟨w, some z⟩ = some v ∧
+      setUtcProperty P ⟨w, some z⟩ = some v ∧
+      v.zone = some P.utc ∧ v.wall.valid = true ∧ toSec v.wall = toSec w - P.off z w ∧
+      instant P v = instant P ⟨w, some z⟩ ∧
+      addLine P name ⟨w, some z⟩ = some ⟨⟨none, none⟩, vDatetimeTo (v.wall.toP false) ++ ['Z']⟩ ∧
+      readDdd P (upper name) ⟨⟨none, none⟩, vDatetimeTo (v.wall.toP false) ++ ['Z']⟩ = .ok (dtItem v) := by
+  have hmin : toSec wallMin = (toDays 1 1 1 * 86400 : Int) := by decide
+  have hmax : toSec wallMax + 1 = (toDays 10000 1 1 * 86400 : Int) := by decide
+  obtain ⟨w', hw'⟩ := ofSec_total (toSec w - P.off z w) (by omega) (by omega)
+  have hv : localizeUtc P ⟨w, some z⟩ = some ⟨w', some P.utc⟩ := by
+    simp only [localizeUtc, hw']
+  obtain ⟨a1, a2, a3, a4, a5, a6, a7⟩ := utc_props_instant P ids hl name hn z w _ hv
+  exact ⟨_, hv, a1, a2, a3, (ofSec_spec _ _ hw').2, a4, a5, a6, a7⟩
+
+/-- ... and it answers ONLY there: for an aware value, `localize_utc` (hence `Component.add` with a forced-UTC
+    name) yields a value exactly when the shifted instant lies in `datetime.min .. datetime.max`; outside,
+    CPython raises OverflowError and the model answers `none`. -/
+theorem instant_conversion_exact {Z : Type} (P : Provider Z) (name : Str) (hn : forcedUtcName name = true)
+    (z : Z) (w : Wall) :
+    ((∃ v, localizeUtc P ⟨w, some z⟩ = some v) ↔
+      toSec wallMin ≤ toSec w - P.off z w ∧ toSec w - P.off z w ≤ toSec wallMax) ∧
+    ((∃ ln, addLine P name ⟨w, some z⟩ = some ln) ↔ ∃ v, localizeUtc P ⟨w, some z⟩ = some v) := by
+  have hmin : toSec wallMin = (toDays 1 1 1 * 86400 : Int) := by decide
+  have hmax : toSec wallMax + 1 = (toDays 10000 1 1 * 86400 : Int) := by decide
+  have hiff := ofSec_isSome_iff (toSec w - P.off z w)
+  constructor
+  · constructor
+    · rintro ⟨v, hv⟩
+      have : ∃ w', ofSec (toSec w - P.off z w) = some w' := by
+        simp only [localizeUtc] at hv
+        cases ho : ofSec (toSec w - P.off z w) with
+        | none => rw [ho] at hv; cases hv
+        | some w' => exact ⟨w', rfl⟩
+      have := hiff.1 this
+      omega
+    · intro ⟨h1, h2⟩
+      obtain ⟨w', hw'⟩ := hiff.2 ⟨by omega, by omega⟩
+      exact ⟨⟨w', some P.utc⟩, by simp only [localizeUtc, hw']⟩
+  · simp only [addLine, addValue, hn, if_true]
+    cases localizeUtc P ⟨w, some z⟩ with
+    | none => simp
+    | some v => simp
+
 /-! ## non-vacuity: the hypotheses are satisfiable, the branches are inhabited -/
 
 example : ProviderLaws demo demoIds := demo_laws
@@ -479,6 +542,22 @@ example : localizeUtc demo ⟨⟨⟨2020, 1, 1⟩, 0, 30, 0⟩, some .berlin⟩ 
   decide
 -- before 0001-01-01T00:00Z there is no `datetime` (CPython: OverflowError): `localizeUtc` does not answer
 example : localizeUtc demo ⟨⟨⟨1, 1, 1⟩, 0, 30, 0⟩, some .berlin⟩ = none := by decide
+-- the hypotheses of `instant_conversion_total` at both ends of the range: 0001-01-01T01:00 Berlin is
+-- datetime.min in UTC, 9999-12-31T18:59:59 New York is datetime.max; one second later there is no answer
+example : forcedUtcName "DTSTAMP".toList = true ∧
+    toSec wallMin ≤ toSec ⟨⟨1, 1, 1⟩, 1, 0, 0⟩ - demo.off .berlin ⟨⟨1, 1, 1⟩, 1, 0, 0⟩ ∧
+    toSec ⟨⟨1, 1, 1⟩, 1, 0, 0⟩ - demo.off .berlin ⟨⟨1, 1, 1⟩, 1, 0, 0⟩ ≤ toSec wallMax ∧
+    toSec wallMin ≤ toSec ⟨⟨9999, 12, 31⟩, 18, 59, 59⟩ - demo.off .newYork ⟨⟨9999, 12, 31⟩, 18, 59, 59⟩ ∧
+    toSec ⟨⟨9999, 12, 31⟩, 18, 59, 59⟩ - demo.off .newYork ⟨⟨9999, 12, 31⟩, 18, 59, 59⟩ ≤ toSec wallMax := by
+  decide
+example : localizeUtc demo ⟨⟨⟨1, 1, 1⟩, 1, 0, 0⟩, some .berlin⟩ = some ⟨wallMin, some .utc⟩ ∧
+    localizeUtc demo ⟨⟨⟨9999, 12, 31⟩, 18, 59, 59⟩, some .newYork⟩ = some ⟨wallMax, some .utc⟩ ∧
+    localizeUtc demo ⟨⟨⟨9999, 12, 31⟩, 19, 0, 0⟩, some .newYork⟩ = none ∧
+    ¬ (toSec ⟨⟨9999, 12, 31⟩, 19, 0, 0⟩ - demo.off .newYork ⟨⟨9999, 12, 31⟩, 19, 0, 0⟩ ≤ toSec wallMax) := by
+  decide
+-- a leap day far from the tested window: 2400-03-01T00:30 Berlin is 2400-02-29T23:30Z
+example : addLine demo "dtstamp".toList ⟨⟨⟨2400, 3, 1⟩, 0, 30, 0⟩, some .berlin⟩ =
+    some ⟨⟨none, none⟩, "24000229T233000Z".toList⟩ := by decide
 -- FREEBUSY;TZID=Europe/Berlin;VALUE=PERIOD:20200101T100000/PT2H
 example : periodLine demo (perItem w10 Z3.berlin (.dur 7200)) =
     ⟨⟨some sPERIOD, some "Europe/Berlin".toList⟩, "20200101T100000/PT2H".toList⟩ := by decide
